@@ -178,7 +178,11 @@ type caseOutcome struct {
 func runCase(p *Pair, env *Env, c Case) caseOutcome {
 	out := caseOutcome{c: c}
 	for _, op := range c.Ops {
-		if op.Name == "cli.formatAll" && len(op.Args) > 2 && string(op.Args[1]) == "LINT" {
+		base := op.Name
+		if i := strings.Index(base, "@"); i >= 0 {
+			base = base[:i] // `cli.X@variant`: the same command, the tree laid out differently on disk
+		}
+		if base == "cli.formatAll" && len(op.Args) > 2 && string(op.Args[1]) == "LINT" {
 			// the verdict of the upper-case lint is an input of the model, computed with the real code
 			t := Tree{}
 			for i := 2; i+1 < len(op.Args); i += 2 {
@@ -188,7 +192,7 @@ func runCase(p *Pair, env *Env, c Case) caseOutcome {
 			args[1] = lintPathsOf(p, env, t)
 			op = Op{op.Name, args}
 		}
-		switch op.Name {
+		switch base {
 		case "cli.generate", "cli.update", "cli.compare":
 			prewarmJoins(p, env, op.Args[0:6], op.Args[7:])
 		case "cli.compareAll":
